@@ -2,8 +2,10 @@
 (* C01 / C03 validation. Each line: a document the real parser accepted, its  *)
 (* elaboration as recorded from the real parser (out.elab), the system state  *)
 (* injected (sys) and, per interface, the RA built (ras). C02 separately      *)
-(* checks out.elab = Elab(doc).                                               *)
-EXTENDS RA, TLC, Json
+(* checks out.elab = Elab(doc); C01 also judges the RA against the document   *)
+(* itself, BuildRA(Elab(doc)), so that a value derived wrongly while parsing  *)
+(* (the PREF64 lifetime) is a C01 violation in its own right.                 *)
+EXTENDS Config, RA, TLC, Json
 
 Trace == ndJsonDeserialize("trace.ndjson")
 VARIABLES l
@@ -14,6 +16,8 @@ C01(e, i) == LET r == e.out.ras[i] el == e.out.elab.ifaces[i] want == BuildRA(el
              ELSE IF r.err # want.err THEN "c01-ra-generation-failure-mismatch"
              ELSE IF r.err THEN "ok"
              ELSE IF NormRA(r.ra) # want THEN "c01-ra-content-differs-from-configuration"
+             ELSE IF "doc" \in DOMAIN e /\ Accept(e.doc) /\ NormRA(r.ra) # BuildRA(Elab(e.doc).ifaces[i], e.sys, r.idx)
+                  THEN "c01-ra-content-differs-from-the-configuration-document"
              ELSE IF ~r.stable THEN "c01-rebuilding-gives-a-different-ra"
              ELSE IF ~r.cfgsame THEN "c01-building-altered-the-configuration"
              ELSE IF r.misconf # Misconfigured(el, e.sys) THEN "c04-misconfiguration-report-wrong"
